@@ -187,6 +187,16 @@ def eval_batch(batch):
     return out
 
 
+def short(v) -> str:
+    try:
+        if isinstance(v, int) and not isinstance(v, bool) and abs(v) > 10 ** 40:
+            return f'<int with {v.bit_length()} bits>'
+        r = repr(v)
+    except Exception as e:  # noqa
+        return f'<unprintable {type(v).__name__}: {type(e).__name__}>'
+    return r if len(r) <= 120 else r[:117] + '...'
+
+
 def judge(expr, py, got):
     """Returns None or (signature, what)."""
     if got[0] == 'refused':
@@ -199,12 +209,12 @@ def judge(expr, py, got):
         return (['raw-exception', got[1]] + classify(expr), f'{expr}: evaluator raised {got[1]} (not an application error); python: {py}')
     val = decode(got[1])
     if py[0] == 'exc':
-        return (['value-where-python-raises', py[1]] + classify(expr), f'{expr}: python raises {py[1]}, evaluator returns {got[1]!r}')
+        return (['value-where-python-raises', py[1]] + classify(expr), f'{expr}: python raises {py[1]}, evaluator returns {short(got[1])}')
     pv = py[1]
     same = type(val) is type(pv) and (val == pv or (isinstance(val, float) and val != val and pv != pv))
     if not same:
         return (['different-value', f'{type(pv).__name__}->{type(val).__name__}' if type(val) is not type(pv) else 'same-type'] + classify(expr),
-                f'{expr}: python = {pv!r}, evaluator = {got[1]!r}')
+                f'{expr}: python = {short(pv)}, evaluator = {short(got[1])}')
     return None
 
 
